@@ -295,6 +295,8 @@ CompleteReport(c) ==
                        \o Build(i + 1)
   IN MergeById(<<>>, Build(1))
 AnyKnownInstalled(c) == CompleteReport(c) # <<>>
+NoDl(reps) == [i \in 1..Len(reps) |-> [j \in 1..Len(reps[i]) |->
+                 [reps[i][j] EXCEPT !.evs = [k \in 1..Len(@) |-> [@[k] EXCEPT !.dl = FALSE]]]]]
 
 ExpectedReports(c) ==
   IF ~c.usable /\ c.ucs # <<>> /\ LastUc(c).ok /\ ~c.hasDoc THEN <<ParseErrReport(c)>>
@@ -446,7 +448,8 @@ StepResult(g, e) ==
                     \cup Chk("C02", "states-after-unauthenticated", c.ann = <<"Checking", "Error">>)
                     \cup Chk("C02", "failure-reason", c.failReason = "Internal")
                ELSE {}
-      vs10 == Chk("C10", "reports", sentReps = exp)
+      \* the download time in an event exists only if the wall clock did not go back during the install
+      vs10 == Chk("C10", "reports", IF c.jumped THEN NoDl(sentReps) = NoDl(exp) ELSE sentReps = exp)
           \cup Chk("C10", "lost-count", c.lostSeen = c.lostExp)
       vsf == IF okc THEN Chk("C08", "attempts-metric", c.attCheck) ELSE Chk("C08", "failure-reason-metric", c.failReason = ExpReason(g, c))
       attExp == okc /\ c.installCalled /\ (HasFailed(c) \/ AnyInstalled(c))
